@@ -54,10 +54,13 @@ pub struct Finding {
     pub property: String,
     #[serde(default)]
     pub oracle: String,
-    /// Every listed feature must be among the violation's features (oracle features and the
-    /// `choice:` features of the shrunk trace).
+    /// Every listed feature must be among the features of the shrunk trace (oracle features,
+    /// `choice:` / `opkind:` features of its non-default choices, `cellkind:`).
     #[serde(default)]
     pub features: Vec<String>,
+    /// At least one of these must be present as well (if non-empty).
+    #[serde(default)]
+    pub any_of: Vec<String>,
     #[serde(default)]
     pub commit: String,
     pub what: String,
@@ -135,6 +138,7 @@ pub fn matches_known(f: &Finding, property: &str, oracle: &str, feats: &BTreeSet
         && f.property == property
         && (f.oracle.is_empty() || f.oracle == oracle)
         && f.features.iter().all(|x| feats.contains(x))
+        && (f.any_of.is_empty() || f.any_of.iter().any(|x| feats.contains(x)))
 }
 
 /// Explores all cells of a property within the time budget and classifies what was found.
@@ -142,7 +146,7 @@ pub fn run_cells(
     out: &mut Outcome,
     plans: Vec<CellPlan>,
     budget_s: f64,
-    max_shrink_per_cell: usize,
+    _max_shrink_per_cell: usize,
 ) -> Result<(), MachineryError> {
     let findings = load_findings();
     let t0 = Instant::now();
@@ -161,7 +165,7 @@ pub fn run_cells(
         let rep = p.cell.explore_dyn(&b)?;
         absorb(out, &rep);
         if rep.violation_count > 0 {
-            classify(out, p.cell.as_ref(), &rep, &findings, max_shrink_per_cell)?;
+            classify(out, p.cell.as_ref(), &rep, &findings, (share * 0.5).max(5.0))?;
         }
     }
     Ok(())
@@ -220,27 +224,78 @@ pub fn absorb(out: &mut Outcome, rep: &Report) {
     );
 }
 
+fn generalize(s: &str) -> String {
+    // "clear parent of e2" -> "clear parent of e#", "vis(c0,e1,false)" -> "vis(c#,e#,false)"
+    let b: Vec<char> = s.chars().collect();
+    let mut out = String::new();
+    let mut i = 0;
+    while i < b.len() {
+        let prev_alnum = i > 0 && b[i - 1].is_alphanumeric();
+        if (b[i] == 'e' || b[i] == 'c') && !prev_alnum && i + 1 < b.len() && b[i + 1].is_ascii_digit() {
+            out.push(b[i]);
+            out.push('#');
+            i += 1;
+            while i < b.len() && b[i].is_ascii_digit() {
+                i += 1;
+            }
+        } else {
+            out.push(b[i]);
+            i += 1;
+        }
+    }
+    out
+}
+
+/// Features of a (shrunk) trace: every non-default choice as `choice:<label>:<alternative>`,
+/// its entity-agnostic form `opkind:<...>` for operations, and the cell kind.
+pub fn all_features(cell_name: &str, out: &RunOut) -> BTreeSet<String> {
+    let mut f = trace_features(out);
+    let kinds: Vec<String> = f
+        .iter()
+        .filter_map(|x| x.strip_prefix("choice:op:").map(|k| format!("opkind:{}", generalize(k))))
+        .collect();
+    f.extend(kinds);
+    if let Some((_, kind)) = cell_name.split_once('-') {
+        f.insert(format!("cellkind:{kind}"));
+    }
+    if let Some(v) = &out.violation {
+        f.extend(v.features.iter().cloned());
+    }
+    f
+}
+
 fn classify(
     out: &mut Outcome,
     cell: &dyn DynCell,
     rep: &Report,
     findings: &Findings,
-    max_shrink: usize,
+    shrink_budget_s: f64,
 ) -> Result<(), MachineryError> {
-    // Group raw violations by (oracle, oracle features); shrink a bounded number per group,
-    // every shrunk trace is classified on its own.
+    // Every recorded violating execution is shrunk and classified on its own shrunk trace
+    // (cheapest first), within a time budget; what could not be classified is counted.
+    let t0 = Instant::now();
     let mut seen_sigs: BTreeSet<String> = BTreeSet::new();
-    let mut groups: std::collections::BTreeMap<String, usize> = Default::default();
-    let mut shrunk = 0usize;
+    let mut seen_raw: BTreeSet<Vec<u16>> = BTreeSet::new();
+    let mut new_here = 0usize;
+    let mut unclassified = rep.violation_count.saturating_sub(rep.violations.len() as u64);
     for fv in &rep.violations {
-        let gkey = format!("{}|{}|{:?}", fv.violation.property, fv.violation.oracle, fv.violation.features);
-        let n = groups.entry(gkey).or_insert(0);
-        *n += 1;
-        if *n > 3 || shrunk >= max_shrink {
+        if fv.violation.property != out.property {
+            // An oracle of another property fired in a cell of this one: configuration error.
+            return Err(MachineryError(format!(
+                "cell {} of {} raised a {} violation",
+                cell.cell_name(),
+                out.property,
+                fv.violation.property
+            )));
+        }
+        if new_here >= 4 || t0.elapsed().as_secs_f64() > shrink_budget_s {
+            unclassified += 1;
             continue;
         }
-        shrunk += 1;
         let small = cell.shrink_dyn(fv.choices.clone(), &fv.violation.property, &fv.violation.oracle);
+        if !seen_raw.insert(small.clone()) {
+            continue;
+        }
         let run = cell.replay_dyn(&small)?;
         let Some(v) = &run.violation else {
             return Err(MachineryError(format!(
@@ -248,8 +303,7 @@ fn classify(
                 cell.cell_name()
             )));
         };
-        let mut feats = v.features.clone();
-        feats.extend(trace_features(&run));
+        let feats = all_features(&cell.cell_name(), &run);
         let sig = format!("{}|{}|{:?}", v.property, v.oracle, feats);
         if !seen_sigs.insert(sig) {
             continue;
@@ -267,7 +321,16 @@ fn classify(
         }
         let path = write_replay(&out.property, cell, &run, &feats)?;
         out.new_violations.push(path);
+        new_here += 1;
     }
+    if unclassified > 0 {
+        eprintln!(
+            "note: {unclassified} violating executions of cell {} were not individually classified (budget)",
+            cell.cell_name()
+        );
+    }
+    let prev = out.extra.get("unclassified_violating_executions").and_then(|v| v.as_u64()).unwrap_or(0);
+    out.extra.insert("unclassified_violating_executions".into(), json!(prev + unclassified));
     Ok(())
 }
 
